@@ -14,8 +14,9 @@ EXPLANATION = (
     "handle channel (49 sites) is unwrapped: it is converted to Error::Shutdown, tested, or deliberately discarded (fire-and-forget drop requests); (R3) "
     "Client::run consumes the client by value, every field of Client that can hold a reply sender is plainly owned (no Arc / Rc / 'static), and drain_transport "
     "drops handle requests instead of serving them — so returning from run drops every pending reply sender; (R4) handle reference counting: Handle::clone / "
-    "Drop send HandleCloned / HandleDropped, the client adds / subtracts one, and the run loop leaves when only the client's own handle is left. NOT decided "
-    "(the larger part): that nothing hangs at any fault point (liveness over schedules), that run returns the right variant, that the broker cleans up."
+    "Drop send HandleCloned / HandleDropped, the client adds / subtracts one, and the run loop leaves when only the client's own handle is left; (R5) in the run loop and while draining, every Err outcome of the select "
+    "(receive or flush error) leads to Err(RunError::Transport(..)) and never back into the loop. NOT decided "
+    "(the larger part): that nothing hangs at any fault point (liveness over schedules), that the broker cleans up."
 )
 
 
@@ -163,3 +164,30 @@ def run(rep):
             (u, v) = list(e)[0]
             ok = len(sel) == 1 and b.reaches(sel[0], u) and sel[0] not in b.reachable(v)
     rep.check(ok, "C15-R4", "aldrin::client::Client::run", "last-handle-ends-run", "the run loop must leave when only the client's own handle is left (num_handles == 1)", detail={})
+
+    # ---- R5 a transport error ends the client with that error -----------------------------------------------------
+    # "its run future returns (ok for the clean cases, the transport error otherwise)": in the run loop and while draining,
+    # every Err outcome of the select (receive error, flush error) leads to `Err(RunError::Transport(e))`; none is swallowed
+    # and none leads back into the loop (which would wait forever on a dead transport).
+    n5 = 0
+    for rx in (r"^aldrin::client::Client::<T>::run::\{closure#0\}$", r"^aldrin::client::Client::<T>::drain_transport::\{closure#0\}$"):
+        b = prog.one(rx)
+        oks = b.edges_matching([r"^Ok=discr\(Future::poll\(Client::select\("])
+        var = b.edges_matching([r"^(Transport|TransportFlushed)=discr\(Future::poll\(Client::select\(.*\)\.0\)$"])
+        tr = set()
+        for i in b.live_blocks():
+            for st in b.blocks[i]["s"]:
+                r = st["r"]
+                if r["k"] == "agg" and r.get("ak") == "adt" and r["adt"].endswith("RunError") and r.get("variant") == "Transport":
+                    tr.add(i)
+        sel = set(c.bb for c in b.calls if c.name == "select" and "Client" in (c.callee or ""))
+        for (u, v) in sorted(var):
+            n5 += 1
+            lab = "|".join(str(x) for x in (b.edge_label(u, v) or []))
+            # without having seen Ok, neither the loop nor a normal return may be reached: only Err(RunError::Transport)
+            back = sel & b.reachable(v, without_edges=oks)
+            leak = set(b.exits()) & b.reachable(v, without_edges=oks, without_nodes=tr)
+            rep.check(bool(tr) and not back and not leak, "C15-R5", b.def_, "transport-error-returned:%s" % lab,
+                      "after a %s event the client may continue (or return normally) only on the Ok edge of its result; an error must end the client with Err(RunError::Transport(..)) — swallowing it leaves the client waiting forever on a dead transport" % lab,
+                      detail={"edge": [u, v], "back_to_select": sorted(back), "normal_exit": sorted(leak)})
+    rep.floor("C15-R5", "transport result events handled in run / drain_transport", n5, 4)
